@@ -815,6 +815,22 @@ func (c *Ctx) RuleFlagSet() *Result {
 // passKind classifies a string->string clean-up pass by the constants it uses.
 func (c *Ctx) passKind(fn *ssa.Function) string {
 	kinds := map[string]bool{}
+	c.passKindInto(fn, kinds, 0, map[*ssa.Function]bool{})
+	var ks []string
+	for k := range kinds {
+		ks = append(ks, k)
+	}
+	sort.Strings(ks)
+	return strings.Join(ks, "+")
+}
+
+// passKindInto collects what fn does to its text; a pass split into string-to-string helpers of
+// the same package is the sum of its helpers (two levels).
+func (c *Ctx) passKindInto(fn *ssa.Function, kinds map[string]bool, depth int, seen map[*ssa.Function]bool) {
+	if fn == nil || seen[fn] || len(fn.Blocks) == 0 {
+		return
+	}
+	seen[fn] = true
 	tab := c.Rx()
 	cmp32, cmp126 := false, false
 	allInstrs(fn, func(in ssa.Instruction) {
@@ -864,20 +880,32 @@ func (c *Ctx) passKind(fn *ssa.Function) string {
 			}
 		}
 		if call, ok := in.(*ssa.Call); ok {
-			if f := staticCallee(&call.Call); isFn(f, rassemblePkg, "Join") {
+			f := staticCallee(&call.Call)
+			if isFn(f, rassemblePkg, "Join") {
 				kinds["print"] = true
+			}
+			if sf := staticFn(&call.Call); depth < 2 && sf != nil && sf.Pkg != nil && sf.Pkg == fn.Pkg && isStringPass(sf) {
+				c.passKindInto(sf, kinds, depth+1, seen)
 			}
 		}
 	})
 	if cmp32 && cmp126 {
 		kinds["hex"] = true
 	}
-	var ks []string
-	for k := range kinds {
-		ks = append(ks, k)
+}
+
+// isStringPass: takes a string (after the receiver) and returns exactly one string.
+func isStringPass(f *ssa.Function) bool {
+	sig := f.Signature
+	if sig.Results().Len() != 1 || !isStringType(sig.Results().At(0).Type()) {
+		return false
 	}
-	sort.Strings(ks)
-	return strings.Join(ks, "+")
+	for i := 0; i < sig.Params().Len(); i++ {
+		if isStringType(sig.Params().At(i).Type()) {
+			return true
+		}
+	}
+	return false
 }
 
 // RuleSanitize: the clean-up passes dominate the exit.
@@ -902,7 +930,7 @@ func (c *Ctx) RuleSanitize() *Result {
 			if sf == nil || !c.P.IsRepoFn(sf) {
 				return
 			}
-			if strings.Contains(c.passKind(sf), "print") && call.Type().Underlying().String() == "string" {
+			if strings.Contains(c.passKind(sf), "print") && passValue(call) != nil {
 				// the first printer in dominance order: the chain is followed forward from it
 				if chainStart == nil || instrDominates(call, chainStart) {
 					chainStart = call
@@ -914,7 +942,7 @@ func (c *Ctx) RuleSanitize() *Result {
 		}
 		// follow the value forward through single-use string passes
 		var steps []step
-		cur := ssa.Value(chainStart)
+		cur := passValue(chainStart)
 		for i := 0; i < 20; i++ {
 			var next *ssa.Call
 			for _, r := range referrers(cur) {
@@ -923,7 +951,7 @@ func (c *Ctx) RuleSanitize() *Result {
 					continue
 				}
 				sf := staticFn(&call.Call)
-				if sf == nil || !c.P.IsRepoFn(sf) || call.Type().Underlying().String() != "string" {
+				if sf == nil || !c.P.IsRepoFn(sf) || passValue(call) == nil {
 					continue
 				}
 				uses := false
@@ -940,7 +968,7 @@ func (c *Ctx) RuleSanitize() *Result {
 				break
 			}
 			steps = append(steps, step{next, c.passKind(staticFn(&next.Call))})
-			cur = next
+			cur = passValue(next)
 		}
 		if len(steps) < 3 {
 			continue
@@ -1040,7 +1068,7 @@ func (c *Ctx) RuleSanitize() *Result {
 						continue
 					}
 					cond, _ := unwrapNot(iff.Cond)
-					if !isLenTestOfArg(cond, input) {
+					if !isLenTestOfArg(cond, input, -1) {
 						problems = append(problems, fmt.Sprintf("the clean-up passes are skipped under a condition (%s) that is not 'the text to clean is empty': text that reaches the output on that path (prefix and suffix lines around an empty body) is neither escaped nor stripped of flag groups", c.P.InstrPos(iff)))
 					}
 				}
@@ -1138,4 +1166,21 @@ func flowsToReturn(v ssa.Value, depth int) bool {
 		}
 	}
 	return false
+}
+
+// passValue: the text a pass hands on: the call itself when it returns a string, its first result when
+// it returns (string, error).
+func passValue(call *ssa.Call) ssa.Value {
+	if call.Type().Underlying().String() == "string" {
+		return call
+	}
+	if tup, ok := call.Type().(*types.Tuple); ok && tup.Len() == 2 && tup.At(0).Type().Underlying().String() == "string" && isErrorType(tup.At(1).Type()) {
+		return resultValue(call, 0)
+	}
+	return nil
+}
+
+func isStringType(t types.Type) bool {
+	b, ok := t.Underlying().(*types.Basic)
+	return ok && b.Info()&types.IsString != 0
 }
